@@ -16,6 +16,7 @@ func main() {
 		os.Exit(2)
 	}
 	h.Quiet()
+	h.CleanStaleScratch()
 	signal.Ignore(syscall.SIGPIPE)
 	id := os.Args[1]
 	f, ok := h.Checks[id]
